@@ -161,6 +161,10 @@ class SccContext:
 
   def backspace(self):
     """Move the cursors in a column to the left"""
+    if self.get_caption_to_process() is None:
+      LOGGER.warning("Backspace received while no caption is being processed")
+      return
+
     self.get_caption_to_process().get_current_text().backspace()
     (row, indent) = self.get_caption_to_process().get_cursor()
     self.get_caption_to_process().set_cursor_at(row, max(indent - 1, 0))
